@@ -108,6 +108,28 @@ class MDict:
             return S.lower(k)
         return k
 
+    # harness-side access by concrete key (contract code only; never forks)
+    def __getitem__(self, key):
+        for k, v in self.entries:
+            if not is_sym(k) and k == key:
+                return v
+        raise KeyError(key)
+
+    def __contains__(self, key):
+        return any((not is_sym(k)) and k == key for k, _ in self.entries)
+
+    def get(self, key, default=None):
+        try:
+            return self[key]
+        except KeyError:
+            return default
+
+    def keys(self):
+        return [k for k, _ in self.entries]
+
+    def items(self):
+        return [(k, v) for k, v in self.entries]
+
 
 class SuperProxy:
     def __init__(self, cls, obj):
@@ -250,6 +272,9 @@ class Interp:
         """Interpret repository function object ``fn`` (a plain function)."""
         node, cls, filename = front.func_ast(fn)
         qual = f"{fn.__module__}.{fn.__qualname__}"
+        if fn.__name__.startswith("__") and not fn.__name__.endswith("__") and "." in fn.__qualname__:
+            clsname = fn.__qualname__.rsplit(".", 1)[0].rsplit(".", 1)[-1]
+            qual = f"{fn.__module__}.{fn.__qualname__.rsplit('.', 1)[0]}._{clsname.lstrip('_')}{fn.__name__}"
         contract = self.contracts.get(qual)
         if contract is not None and (fn is not self.target or self.in_target > 0) and hasattr(contract, "at_call"):
             self.call_log.append(qual)
@@ -484,8 +509,9 @@ class Interp:
             for name, c in spec.inv(E, frame.locals):
                 ctx.assume(c)
             elem = spec.element(E, case, coll)
-            for fact in getattr(coll, "facts", []):
-                ctx.assume(fact(elem))
+            from .absx import facts_for
+            for c in facts_for(coll, elem):
+                ctx.assume(c)
             pre = {k: (list(v) if isinstance(v, list) else v) for k, v in frame.locals.items()}
             self.assign(st.target, elem, frame)
             try:
@@ -499,7 +525,7 @@ class Interp:
             for name, c in spec.step(E, pre, frame.locals, elem, case):
                 ctx.require(f"{tag}:step[{case}]:{name}", c)
             raise LoopBodyDone()
-        frame.locals.update(spec.carried(E, frame.locals, coll))
+        frame.locals.update(spec.exit_state(E, frame.locals, coll))
         for name, c in spec.inv(E, frame.locals):
             ctx.assume(c)
         spec.after(E, frame.locals, coll)
@@ -589,11 +615,21 @@ class Interp:
             raise OutOfReach("with: several items")
         item = st.items[0]
         cm = self.eval(item.context_expr, frame)
-        if not isinstance(cm, models.FileModel):
+        if isinstance(cm, models.FileModel):
+            if item.optional_vars is not None:
+                self.assign(item.optional_vars, cm, frame)
+            self.exec_block(st.body, frame)
+            return
+        if _contains_symbolic(cm) or not hasattr(cm, "__enter__"):
             raise OutOfReach("with on a non-modelled context manager")
-        if item.optional_vars is not None:
-            self.assign(item.optional_vars, cm, frame)
-        self.exec_block(st.body, frame)
+        # a real (concrete) context manager, e.g. an open schema file: run it natively
+        v = cm.__enter__()
+        try:
+            if item.optional_vars is not None:
+                self.assign(item.optional_vars, v, frame)
+            self.exec_block(st.body, frame)
+        finally:
+            cm.__exit__(None, None, None)
 
     def x_FunctionDef(self, st, frame):
         frame.locals[st.name] = Closure(st, frame, st.name)
@@ -930,7 +966,9 @@ class Interp:
         return Closure(e, frame, "<lambda>")
 
     def e_ListComp(self, e, frame):
-        return list(self._comp(e.elt, e.generators, frame))
+        from .absx import AbsMap
+        r = self._comp(e.elt, e.generators, frame)
+        return r if isinstance(r, AbsMap) else list(r)
 
     def e_GeneratorExp(self, e, frame):
         return self._comp(e.elt, e.generators, frame)
@@ -947,6 +985,33 @@ class Interp:
     def _comp(self, elt, gens, frame):
         inner = Frame({}, frame.globals, cls=frame.cls, qualname=frame.qualname, filename=frame.filename)
         inner.parent = frame
+        if len(gens) == 1:
+            from .absx import AbsColl, AbsMap
+            src = self.eval(gens[0].iter, frame)
+            if isinstance(src, AbsColl):
+                g = gens[0]
+
+                def apply(elem):
+                    fr = Frame({}, frame.globals, cls=frame.cls, qualname=frame.qualname, filename=frame.filename)
+                    fr.parent = frame
+                    self.assign(g.target, elem, fr)
+                    cond = True
+                    self.ctx.pure += 1
+                    try:
+                        for c in g.ifs:
+                            cond = S.and_(cond, self.truth(self.eval(c, fr)))
+                        val = self.eval(elt, fr)
+                    except NeedFork:
+                        raise OutOfReach("comprehension over an abstract collection needs a fork")
+                    finally:
+                        self.ctx.pure -= 1
+                    return cond, val
+                return AbsMap(src, apply)
+            gens = [ast.comprehension(target=gens[0].target, iter=ast.Constant(value=None), ifs=gens[0].ifs, is_async=0)]
+            return self._comp_iter(elt, gens, frame, inner, first=src)
+        return self._comp_iter(elt, gens, frame, inner)
+
+    def _comp_iter(self, elt, gens, frame, inner, first=None):
 
         def rec(i):
             if i == len(gens):
@@ -955,7 +1020,8 @@ class Interp:
             g = gens[i]
             if g.is_async:
                 raise OutOfReach("async comprehension")
-            for x in self.iterate(self.eval(g.iter, inner if i else frame)):
+            src = first if (i == 0 and first is not None) else self.eval(g.iter, inner if i else frame)
+            for x in self.iterate(src):
                 self.assign(g.target, x, inner)
                 ok = True
                 for cond in g.ifs:
